@@ -1093,6 +1093,10 @@ class Executor:
             for c in gen.ifs:
                 guards.append(truthy(self.eval(st2, c)))
         if which is sum:
+            if self.c.opts.get("sum_models") and not self.in_spec:
+                r = self.sum_by_model(st, g)
+                if r is not None:
+                    return r
             return self.sum_of(st, st2, g, qvars, guards)
         st2b = st2.fork()
         st2b.assume(z3.And(*guards))   # obligations emitted inside the body see the range guards
@@ -1110,6 +1114,61 @@ class Executor:
         if which is all:
             return V(BOOL, forall(qvars, z3.Implies(z3.And(guard, *extras) if extras else guard, body)))
         return V(BOOL, exists(qvars, z3.And(guard, *extras, body) if extras else z3.And(guard, body)))
+
+    def sum_by_model(self, st, g):
+        """opt-in (Contract.opts["sum_models"] = [recursive specs]): `sum(<elt> for <target> in <list> if <cond>)` in the verified
+        code is the value  f(list, len(list), v1, ..., vm)  of a recursive spec f(xs, n, v1..vm) of the sidecar (v1..vm: the free local
+        names of the generator expression other than the list, in order of first occurrence) PROVIDED f satisfies the recurrences of
+        this very sum, which are emitted as obligations of their own (no hypotheses, arbitrary list / index / values):
+            f(xs, 0, vs) == 0        0 <= k < len(xs)  =>  f(xs, k + 1, vs) == f(xs, k, vs) + (elt(xs[k]) if cond(xs[k]) else 0)
+        By induction on len(xs) the two make f(xs, len(xs), vs) the sum; nothing is assumed."""
+        if len(g.generators) != 1 or not isinstance(g.generators[0].iter, ast.Name):
+            return None
+        gen = g.generators[0]
+        src = self.eval(st, gen.iter)
+        if not (isinstance(src, V) and isinstance(src.ty, TList)):
+            return None
+        bound = {n.id for n in ast.walk(gen.target) if isinstance(n, ast.Name)}
+        free = []
+        for part in [g.elt] + list(gen.ifs):
+            for n in ast.walk(part):
+                if isinstance(n, ast.Name) and n.id not in bound and n.id != gen.iter.id and n.id in st.env and n.id not in free:
+                    free.append(n.id)
+        fvals = [st.env[n] for n in free]
+        if not all(isinstance(v, V) for v in fvals):
+            return None
+        for sp in self.c.opts["sum_models"]:
+            node, params = contract_ast(sp.fn)
+            ann = sp.fn.__annotations__
+            if not (sp.recursive and len(params) == 2 + len(free) and ann.get(params[0]) == src.ty
+                    and all(ann.get(p) == v.ty for p, v in zip(params[2:], fvals))):
+                continue
+            mk = (sp.name, ast.dump(g))
+            done = self.__dict__.setdefault("_sum_models_done", set())     # once per run of this executor
+            if mk not in done:
+                done.add(mk)
+                s0 = State()
+                s0.ghost = dict(st.ghost)
+                xs = fresh_seq(src.ty, s0, "sm_xs")
+                wf_assumptions(xs, s0)
+                k = fresh(INT, "sm_k")
+                vs = [fresh(v.ty, "sm_" + n) for n, v in zip(free, fvals)]
+                s0.env = dict(zip(free, vs))
+                s0.env[gen.iter.id] = xs
+                self.bind_target(s0, gen.target, V(src.ty.elem, z3.Select(seq_arr(xs), k.z)))
+                cond = z3.And(*[truthy(self.eval(s0, c)) for c in gen.ifs]) if gen.ifs else z3.BoolVal(True)
+                term = coerce(self.eval(s0, g.elt), INT).z
+                self._concrete_specs = True          # the recurrences are about the DEFINED function, never an abstracted symbol
+                try:
+                    f = lambda n: coerce(self.apply_spec(s0, sp, [xs, V(INT, n)] + vs, {}), INT).z
+                    f0, fk, fk1 = f(z3.IntVal(0)), f(k.z), f(k.z + 1)
+                finally:
+                    self._concrete_specs = False
+                self.emit(s0, "sum-model", sp.name + ".base", f0 == 0)
+                self.emit(s0, "sum-model", sp.name + ".step",
+                          z3.Implies(z3.And(0 <= k.z, k.z < seq_len(xs)), fk1 == fk + z3.If(cond, term, 0)))
+            return self.apply_spec(st, sp, [src, V(INT, seq_len(src))] + fvals, {})
+        return None
 
     def sum_of(self, st, st2, g, qvars, guards):
         """sum(term(i) for i ...): a fresh integer with the facts that hold of every finite sum of non-negative
@@ -1527,7 +1586,7 @@ class Executor:
         for p in params[len(args):]:
             if p in kwargs:
                 env[p] = kwargs[p]
-        if isinstance(sp, Spec) and sp.name in (self.c.opts.get("abstract_specs") or ()):
+        if isinstance(sp, Spec) and sp.name in (self.c.opts.get("abstract_specs") or ()) and not getattr(self, "_concrete_specs", False):
             # opt-in (see apply_rec_spec): in this function's verification conditions the spec is an uninterpreted symbol of its
             # arguments (an atom, for a predicate); its body is seen only where it is not abstracted (the lemmas about it)
             rty = ann.get("return")
@@ -1585,7 +1644,7 @@ class Executor:
         ann = fn.__annotations__
         ptys = [ann[p] for p in params]
         rty = ann["return"]
-        if sp.name in (self.c.opts.get("abstract_specs") or ()):
+        if sp.name in (self.c.opts.get("abstract_specs") or ()) and not getattr(self, "_concrete_specs", False):
             # opt-in (Contract.opts["abstract_specs"] / Lemma.opts): inside THIS function's (lemma's) verification conditions the
             # recursive spec is an UNINTERPRETED symbol -- the solver never unfolds its definition; whatever the proof needs about it
             # must come from instances of proved lemmas (hints / unfold).  Sound: the conditions are then valid for every
